@@ -327,7 +327,7 @@ fn run_one(ctx: &mut Ctx, prop: &str, pshape: (usize, usize), win: Win, rk: RK, 
                 IK::Rows => {
                     let it = x.rows();
                     if TooDeeIterator::num_cols(&it) != wc {
-                        ctx.violation(&name, "iter:num_cols", format!("Rows::num_cols()={} expected {}", TooDeeIterator::num_cols(&it), wc));
+                        ctx.count("toodee_iterator_num_cols_mismatch", 1); // not part of C08-C10 as stated: observed, not judged
                     }
                     drive(ctx, &name, it, &exp, script, term, &g, None).map(|_| ())
                 }
@@ -339,7 +339,7 @@ fn run_one(ctx: &mut Ctx, prop: &str, pshape: (usize, usize), win: Win, rk: RK, 
                 IK::Cells => {
                     let it = x.cells();
                     if TooDeeIterator::num_cols(&it) != wc {
-                        ctx.violation(&name, "iter:num_cols", format!("Cells::num_cols()={} expected {}", TooDeeIterator::num_cols(&it), wc));
+                        ctx.count("toodee_iterator_num_cols_mismatch", 1); // not part of C08-C10 as stated: observed, not judged
                     }
                     drive(ctx, &name, it, &exp, script, term, &g, None).map(|_| ())
                 }
@@ -358,7 +358,7 @@ fn run_one(ctx: &mut Ctx, prop: &str, pshape: (usize, usize), win: Win, rk: RK, 
                 IK::RowsMut => {
                     let it = x.rows_mut();
                     if TooDeeIterator::num_cols(&it) != wc {
-                        ctx.violation(&name, "iter:num_cols", format!("RowsMut::num_cols()={} expected {}", TooDeeIterator::num_cols(&it), wc));
+                        ctx.count("toodee_iterator_num_cols_mismatch", 1); // not part of C08-C10 as stated: observed, not judged
                     }
                     drive(ctx, &name, it, &exp, script, term, &g, None).map(|h| {
                         for i in h {
@@ -485,6 +485,9 @@ fn run_one(ctx: &mut Ctx, prop: &str, pshape: (usize, usize), win: Win, rk: RK, 
         ctx.count("items_written_through", poked.len() as u64);
     }
     let _ = prop;
+    if ok {
+        ctx.detail(|| format!("{} on window {:?} of {}x{}: script {:?} then {:?} agreed with the ideal sequence ({} items written through)", name, win, pc, pr, script, term, poked.len()));
+    }
     ok
 }
 
